@@ -1,9 +1,185 @@
 package main
 
-import "golang.org/x/tools/go/ssa"
+// Thread mode: several interpreted goroutines over one heap, scheduled cooperatively.
+// A context switch can happen only at a visible operation (a call to a function matched by a
+// //verif:visible directive, a sync/atomic operation, or an explicit vyield/vwait). The thread to run
+// next is a path decision, so every interleaving of visible operations (within the bound) is explored
+// and each explored schedule is a replayable sequence of (thread, operation) pairs.
 
-// threadState is the cooperative scheduler used in thread mode (see threads_impl.go once enabled).
-type threadState struct{}
+import (
+	"fmt"
+	"strings"
 
-func (t *threadState) maybeYield(ex *Exec, in ssa.Instruction) {}
-func (t *threadState) spawn(ex *Exec, fn FuncV, args []Value)  { ex.inconclusive("thread mode not enabled") }
+	"golang.org/x/tools/go/ssa"
+)
+
+type thread struct {
+	id      int
+	name    string
+	resume  chan bool // true = run, false = die
+	done    bool
+	waiting bool // blocked until another thread has made a step
+	started bool
+	fn      FuncV
+	args    []Value
+	frame   *Frame
+	depth   int
+	failure interface{} // panic value that ended the thread abnormally
+	daemon  bool
+	lastOp  string
+}
+
+type threadState struct {
+	threads  []*thread
+	cur      *thread
+	backCh   chan struct{} // thread -> scheduler: "I yielded / finished"
+	running  bool
+	switches int
+	schedule []string
+	mainFrame *Frame
+	mainDepth int
+}
+
+type threadKill struct{}
+
+func (ex *Exec) threadsInit() *threadState {
+	if ex.threads == nil {
+		ex.threads = &threadState{backCh: make(chan struct{})}
+	}
+	return ex.threads
+}
+
+// spawn registers a new thread (it starts running when the scheduler first picks it).
+func (ts *threadState) spawn(ex *Exec, fn FuncV, args []Value) {
+	t := &thread{id: len(ts.threads), resume: make(chan bool), fn: fn, args: args}
+	t.name = fmt.Sprintf("T%d", t.id)
+	ts.threads = append(ts.threads, t)
+}
+
+func (ts *threadState) maybeYield(ex *Exec, in ssa.Instruction) {}
+
+// yieldPoint is called by a running thread just before a visible operation.
+func (ts *threadState) yieldPoint(ex *Exec, what string, wait bool) {
+	t := ts.cur
+	if t == nil || !ts.running {
+		return // main harness code outside vrunThreads: sequential
+	}
+	t.waiting = wait
+	t.lastOp = what
+	t.frame, t.depth = ex.frame, ex.depth
+	ts.backCh <- struct{}{}
+	if ok := <-t.resume; !ok {
+		panic(threadKill{})
+	}
+	ex.frame, ex.depth = t.frame, t.depth
+}
+
+// run is the scheduler loop, executed on the harness (main) goroutine.
+func (ts *threadState) run(ex *Exec) {
+	ts.running = true
+	ts.mainFrame, ts.mainDepth = ex.frame, ex.depth
+	defer func() {
+		ts.running = false
+		ts.cur = nil
+		ex.frame, ex.depth = ts.mainFrame, ts.mainDepth
+	}()
+	var last *thread
+	for {
+		var runnable []*thread
+		alive := 0
+		for _, t := range ts.threads {
+			if t.done {
+				continue
+			}
+			if !t.daemon {
+				alive++
+			}
+			if t.waiting && (last == nil || last == t) {
+				continue
+			}
+			runnable = append(runnable, t)
+		}
+		if alive == 0 {
+			ts.killAll()
+			return
+		}
+		if len(runnable) == 0 {
+			ts.killAll()
+			ex.reportViolation("deadlock", "all threads blocked: "+strings.Join(ts.schedule, " "), ex.model)
+			panic(pathEnd{kind: "deadlock"})
+		}
+		// context bound: once the switch budget is used up, keep running the current thread while it can
+		var pick *thread
+		if ex.h.cfg.MaxSwitches > 0 && ts.switches >= ex.h.cfg.MaxSwitches && last != nil {
+			for _, t := range runnable {
+				if t == last {
+					pick = t
+				}
+			}
+		}
+		if pick == nil {
+			k := 0
+			if len(runnable) > 1 {
+				k = ex.choose(len(runnable))
+				ex.ndVars = append(ex.ndVars, ndVar{Kind: "choose", n: k})
+			}
+			pick = runnable[k]
+		}
+		if last != nil && pick != last {
+			ts.switches++
+		}
+		ts.cur = pick
+		pick.waiting = false
+		ts.resumeThread(ex, pick)
+		last = pick
+		if pick.failure != nil {
+			f := pick.failure
+			pick.failure = nil
+			ts.killAll()
+			panic(f)
+		}
+	}
+}
+
+func (ts *threadState) resumeThread(ex *Exec, t *thread) {
+	if !t.started {
+		t.started = true
+		go func() {
+			defer func() {
+				if r := recover(); r != nil {
+					if _, ok := r.(threadKill); !ok {
+						t.failure = r
+					}
+				}
+				t.done = true
+				ts.backCh <- struct{}{}
+			}()
+			if ok := <-t.resume; !ok {
+				panic(threadKill{})
+			}
+			ex.frame, ex.depth = nil, 0
+			ex.callValue(t.fn, t.args, nil)
+		}()
+	}
+	op := ts.pendingOpOf(t)
+	ts.schedule = append(ts.schedule, t.name+":"+op)
+	t.resume <- true
+	<-ts.backCh
+}
+
+func (ts *threadState) pendingOpOf(t *thread) string {
+	if !t.started || t.lastOp == "" {
+		return "start"
+	}
+	return t.lastOp
+}
+
+func (ts *threadState) killAll() {
+	for _, t := range ts.threads {
+		if t.started && !t.done {
+			t.resume <- false
+			<-ts.backCh
+		}
+		t.done = true
+	}
+}
